@@ -571,6 +571,13 @@ class EndpointResponseHandlerGenerator:
                 writer.write_line("return  # Explicit return for async generator")
             return
 
+        # A text/* body declared as a plain string is returned verbatim: response.json() would fail on it
+        if strategy.return_type == "str" and strategy.response_ir is not None and strategy.response_ir.content:
+            content_types = list(strategy.response_ir.content.keys())
+            if all(ct.startswith("text/") for ct in content_types):
+                writer.write_line("return response.text")
+                return
+
         # Use response.json() directly - no automatic unwrapping
         data_expr = "response.json()"
 
